@@ -169,7 +169,7 @@ func seqHistory(r *rand.Rand, nops int, sh *core.Shard) (ops []c05op, sig, what 
 	for i := 0; i < 4; i++ {
 		newObj()
 	}
-	dupRemovals, lateRemovals, neverAdded := 0, 0, 0
+	dupRemovals, lateRemovals, neverAdded, echoes := 0, 0, 0, 0
 	for i := 0; i < nops; i++ {
 		var o *obj
 		if r.Intn(6) == 0 || len(objs) == 0 {
@@ -179,6 +179,20 @@ func seqHistory(r *rand.Rand, nops int, sh *core.Shard) (ops []c05op, sig, what 
 		}
 		var op c05op
 		switch {
+		case r.Intn(25) == 0:
+			// a peer echoes what it holds about THIS node: the state of a previous
+			// incarnation with the same node id (a crash and restart with a fixed
+			// cluster.node_id), at versions above the current ones. What the node
+			// advertises is its own registry, never what peers say about it.
+			echoes++
+			own := rg.v.LocalNode()
+			ep := eps[r.Intn(len(eps))]
+			op = c05op{"peerEcho", -1, ep}
+			ents := []gossip.Entry{{Key: "endpoint:" + ep, Value: strconv.Itoa(1 + r.Intn(4)), Version: own.Version + 1 + uint64(r.Intn(50))}}
+			if r.Intn(2) == 0 {
+				ents = append(ents, gossip.Entry{Key: "endpoint:" + eps[r.Intn(len(eps))], Version: ents[0].Version + 1, Deleted: true})
+			}
+			rg.v.ApplyDelta([]gossip.VDeltaEntry{{ID: own.ID, Addr: own.Addr, Entries: ents}})
 		case !o.added && o.removed == 0 && r.Intn(8) != 0:
 			op = c05op{"add", o.u.id, o.u.ep}
 			rg.mgr.AddConn(o.u)
@@ -224,6 +238,7 @@ func seqHistory(r *rand.Rand, nops int, sh *core.Shard) (ops []c05op, sig, what 
 	sh.Count("duplicate_removals", int64(dupRemovals))
 	sh.Count("duplicate_removals_with_sibling_connected", int64(lateRemovals))
 	sh.Count("removals_of_never_added", int64(neverAdded))
+	sh.Count("peer_echoes_about_local_node", int64(echoes))
 	if lateRemovals > 0 {
 		sh.Nontrivial(core.Hash("seq", fmt.Sprint(ops)))
 	}
@@ -399,12 +414,12 @@ func runC05(sh *core.Shard, a props.Args) {
 func init() {
 	props.Register(&props.Prop{
 		ID: "C05", Level: "exploration", Race: true,
-		Rule: "the real LoadBalancedManager + cluster.State + syncer + gossip state of one node, driven (a) by seeded sequential histories over 3 near-miss endpoint ids and one-shot upstream objects: add, remove, repeated and late removal (the proxy's ErrGone path followed by the handler's deferred removal), removal of never-added objects; after every operation the reference count per endpoint must equal manager.Endpoints(), cluster LocalNode().Endpoints and the live endpoint:<id> gossip entries (absent or tombstoned iff 0), and Select(e,false) must succeed iff the count is positive; (b) by 4-16 worker goroutines plus 2 'proxy' goroutines that remove what Select hands out plus status readers, under the race detector, with the same equality asserted at every barrier (reference = objects added and never removed by anybody). Non-trivial sequential history = contains a duplicate removal while a sibling of the same endpoint is registered; distinct = hash of the operation list / of the round parameters.",
+		Rule: "the real LoadBalancedManager + cluster.State + syncer + gossip state of one node, driven (a) by seeded sequential histories over 3 near-miss endpoint ids and one-shot upstream objects: add, remove, a peer echoing a delta that names this node itself with endpoint entries above its current version (what a previous incarnation with the same node id left behind), repeated and late removal (the proxy's ErrGone path followed by the handler's deferred removal), removal of never-added objects; after every operation the reference count per endpoint must equal manager.Endpoints(), cluster LocalNode().Endpoints and the live endpoint:<id> gossip entries (absent or tombstoned iff 0), and Select(e,false) must succeed iff the count is positive; (b) by 4-16 worker goroutines plus 2 'proxy' goroutines that remove what Select hands out plus status readers, under the race detector, with the same equality asserted at every barrier (reference = objects added and never removed by anybody). Non-trivial sequential history = contains a duplicate removal while a sibling of the same endpoint is registered; distinct = hash of the operation list / of the round parameters.",
 		Assumptions: []string{
 			"an upstream object is registered at most once (the server creates a fresh ConnUpstream per connection)",
 			"gossip publication observed on the node's own gossip state (propagation to peers is C02-C04)",
 		},
-		RequireCounters: []string{"duplicate_removals_with_sibling_connected", "removals_of_never_added", "barriers", "double_removals_by_two_parties"},
+		RequireCounters: []string{"duplicate_removals_with_sibling_connected", "removals_of_never_added", "peer_echoes_about_local_node", "barriers", "double_removals_by_two_parties"},
 		Timeout: func(tier string) time.Duration {
 			if tier == "thorough" {
 				return 60 * time.Minute
